@@ -1,5 +1,5 @@
 From RsdnsModel Require Import Base Cursor Names Labels RData Reader RecordSet.
-From RsdnsModel.Proofs Require Import CursorSafe Chase FromMsg.
+From RsdnsModel.Proofs Require Import CursorSafe LabelsSound Chase FromMsg NameRefEq.
 From RsdnsModel.Properties Require Import C06.
 Open Scope N_scope.
 Check (C06_result_is_chain_end : forall msg ty rclass r fuel qname hs name ttl data,
@@ -27,4 +27,8 @@ Check (C06_from_msg_is_chase : forall msg ty rs, from_msg msg ty = Ok rs ->
     Forall in_answer hs /\
     chase msg (S (length hs)) ty r qname (rs_class rs) hs = Ok (name, rs_ttl rs, rs_data rs) /\
     read_name msg Heap name = Ok (rs_name rs, c')).
-Print Assumptions C06_result_is_chain_end. Print Assumptions C06_chain_end_is_returned. Print Assumptions C06_nothing_qualifies_is_noanswer. Print Assumptions C06_always_terminates. Print Assumptions C06_from_msg_is_chase.
+Check (C06_match_is_decoded_equality : forall msg rclass want name c mk t1 t2 c1' c2',
+  cwf msg c -> cwf msg name -> vis msg c = vis msg name ->
+  read_name msg Heap c = Ok (t1, c1') -> read_name msg Heap name = Ok (t2, c2') ->
+  is_match msg rclass want name (Some (c, mk)) = name_eq t1 t2 && ((m_rtype mk =? want) && (m_rclass mk =? rclass))).
+Print Assumptions C06_result_is_chain_end. Print Assumptions C06_chain_end_is_returned. Print Assumptions C06_nothing_qualifies_is_noanswer. Print Assumptions C06_always_terminates. Print Assumptions C06_from_msg_is_chase. Print Assumptions C06_match_is_decoded_equality.
